@@ -66,7 +66,7 @@ Qed.
 Lemma blind_tag_no_case t : blind eq (tag_no_case t).
 Proof.
   intros st st' o o' x. unfold tag_no_case. cbn. destruct (take_bytes x (length t)) as [a b| |]; cbn; auto.
-  destruct (ci_eqb a t); cbn; auto.
+  destruct (ci_eqb a t && negb (word_tag t && starts_ident b)); cbn; auto.
 Qed.
 
 (* ---------------------------------------------------------------- keyword case *)
@@ -99,19 +99,33 @@ Proof. induction 1; cbn; [reflexivity|]. rewrite H, N.eqb_refl. assumption. Qed.
 Lemma ci_eq_length a t : ci_eq a t -> length a = length t.
 Proof. induction 1; cbn; congruence. Qed.
 
-(* an ASCII tag is matched by every spelling that differs from it in ASCII letter case only, with the same result *)
+(* an ASCII tag is matched by every spelling that differs from it in ASCII letter case only, with the same result,
+   provided the keyword ends at a word boundary (a tag that starts with a letter is not followed by an identifier character) *)
+Definition boundary (t x : text) : Prop := word_tag t && starts_ident x = false.
 Lemma tag_case t : forallb (fun x => x <? 128) t = true ->
-  forall a x st o, ci_eq a t -> tag_no_case t st (mkIn o (a ++ x)) = (st, Ok a (mkIn (o + blen a) x)).
+  forall a x st o, ci_eq a t -> boundary t x -> tag_no_case t st (mkIn o (a ++ x)) = (st, Ok a (mkIn (o + blen a) x)).
 Proof.
-  intros Ht a x st o Hc. unfold tag_no_case. cbn [rem]. rewrite <- (ci_eq_length _ _ Hc).
-  rewrite (take_bytes_ascii a (ci_eq_ascii _ _ Hc Ht)). rewrite (ci_eq_eqb _ _ Hc). reflexivity.
+  intros Ht a x st o Hc Hb. unfold tag_no_case. cbn [rem]. rewrite <- (ci_eq_length _ _ Hc).
+  rewrite (take_bytes_ascii a (ci_eq_ascii _ _ Hc Ht)). rewrite (ci_eq_eqb _ _ Hc). unfold boundary in Hb. rewrite Hb. reflexivity.
+Qed.
+(* ... and inside a longer word it is not matched at all *)
+Lemma tag_inside_word t : forallb (fun x => x <? 128) t = true ->
+  forall a x st o, ci_eq a t -> word_tag t && starts_ident x = true -> tag_no_case t st (mkIn o (a ++ x)) = (st, Err).
+Proof.
+  intros Ht a x st o Hc Hb. unfold tag_no_case. cbn [rem]. rewrite <- (ci_eq_length _ _ Hc).
+  rewrite (take_bytes_ascii a (ci_eq_ascii _ _ Hc Ht)). rewrite (ci_eq_eqb _ _ Hc), Hb. reflexivity.
 Qed.
 Lemma all_tags_ascii : forallb (fun t => forallb (fun x => x <? 128) t) all_keyword_tags = true.
 Proof. vm_compute. reflexivity. Qed.
 Lemma keyword_case t : In t all_keyword_tags ->
-  forall a x st o, ci_eq a t -> tag_no_case t st (mkIn o (a ++ x)) = (st, Ok a (mkIn (o + blen a) x)).
+  forall a x st o, ci_eq a t -> boundary t x -> tag_no_case t st (mkIn o (a ++ x)) = (st, Ok a (mkIn (o + blen a) x)).
 Proof.
   intros Hin. apply tag_case. pose proof all_tags_ascii as H. rewrite forallb_forall in H. apply H. assumption.
+Qed.
+Lemma keyword_word t : In t all_keyword_tags ->
+  forall a x st o, ci_eq a t -> word_tag t && starts_ident x = true -> tag_no_case t st (mkIn o (a ++ x)) = (st, Err).
+Proof.
+  intros Hin. apply tag_inside_word. pose proof all_tags_ascii as H. rewrite forallb_forall in H. apply H. assumption.
 Qed.
 
 (* ---------------------------------------------------------------- the block comment scanner *)
